@@ -16,7 +16,7 @@ RInt(n) == ROfInt(n)
 R(bits) == RFx(bits)
 
 EnvOps == {"tick", "set_clock", "add_mint", "fund", "fund_vault", "set_oracle", "inject_bank", "copy_account", "reset",
-           "add_solend_reserve", "set_solend_reserve"}
+           "add_solend_reserve", "set_solend_reserve", "set_transfer_fee", "set_epoch"}
 IsProgramEvent(e) == e.ev \notin EnvOps
 
 \* ---- reference quantities ------------------------------------------------------------------
